@@ -12,6 +12,11 @@ import (
 
 type regBounded struct {
 	Contract string `json:"contract"`
+	// a bounded CLAUSE (instead of a stand-in for an assumed contract): a clause of a property on a function under contract
+	// that the verifier cannot reach, decided by bounded execution of the real code; run whenever the function is checked
+	Clause     string   `json:"clause,omitempty"`
+	Function   string   `json:"function,omitempty"`
+	Properties []string `json:"properties,omitempty"`
 	Pkg      string `json:"pkg"`
 	File     string `json:"file"`
 	Run      string `json:"run"`
@@ -24,6 +29,9 @@ type regReplay struct {
 	File       string `json:"file"`
 	Run        string `json:"run"`
 }
+
+// the tree replays and bounded checks run against (the -repo of this run)
+var replayRepo = "/repo"
 
 type registry struct {
 	Bounded []regBounded `json:"bounded"`
@@ -43,6 +51,7 @@ func loadRegistry(verifDir string) *registry {
 // runGoReplay runs a registered test against /repo through the overlay script. ok == test passed.
 func runGoReplay(verifDir, pkg, file, run string) (bool, string) {
 	cmd := exec.Command(filepath.Join(verifDir, "replay", "run_replay.sh"), pkg, filepath.Join(verifDir, file), run)
+	cmd.Env = append(os.Environ(), "GOVC_REPO="+replayRepo)
 	out, err := cmd.CombinedOutput()
 	text := string(out)
 	return err == nil && strings.Contains(text, "\nok") || (err == nil && strings.Contains(text, "PASS")), text
